@@ -36,6 +36,9 @@ pub struct Case {
   pub cols: usize,
   pub i: Ix,
   pub j: Option<Ix>,
+  /// enumerated wrong-length-mask stratum: the acceptance table of the pinned tree applies strictly (it was learned from exactly these cases)
+  #[serde(default)]
+  pub strict: bool,
 }
 
 /// distinct, kind-typed elements so that a misplaced element is visible
@@ -136,9 +139,9 @@ impl Prop for C03 {
     (pick(all_ek()), shape_strategy(maxd), any::<bool>(), 0u8..10).prop_flat_map(|(ek, (rows, cols), two, oobsel)| {
       if two {
         // two-position form; oobsel 0 → I out of range, 1 → J out of range, 2.. in range
-        (ix_strategy(rows, oobsel == 0, true), ix_strategy(cols, oobsel == 1, true)).prop_map(move |(i, j)| Case { ek, rows, cols, i, j: Some(j) }).boxed()
+        (ix_strategy(rows, oobsel == 0, true), ix_strategy(cols, oobsel == 1, true)).prop_map(move |(i, j)| Case { ek, rows, cols, i, j: Some(j), strict: false }).boxed()
       } else {
-        ix_strategy(rows * cols, oobsel < 2, true).prop_map(move |i| Case { ek, rows, cols, i, j: None }).boxed()
+        ix_strategy(rows * cols, oobsel < 2, true).prop_map(move |i| Case { ek, rows, cols, i, j: None, strict: false }).boxed()
       }
     }).boxed()
   }
@@ -156,6 +159,7 @@ impl Prop for C03 {
     ]
   }
   fn describe(c: &Case) -> String { render(c).join("; ") }
+  fn fixed_cases(_t: Tier) -> Vec<Case> { masklen_stratum() }
   fn check(c: &Case, _cx: &Cx) -> Verdict { check(c) }
 }
 
@@ -231,6 +235,18 @@ fn check(c: &Case) -> Verdict {
     Err(()) => {
       if let Outcome::Ok(val) = &out {
         let cause = oob_cause(c);
+        if cause == "mask-length-unchecked" {
+          // the listed finding is tied to the places where the pinned tree accepts a mask of the wrong length: (storage, index forms, which
+          // subscript's mask is too short / too long). A combination outside that table is a new acceptance and is reported.
+          let mkey = format!("{}|{}|{}", storage, forms, mask_rel(c));
+          if c.strict { v.label(format!("masklen-accepted:{}", mkey)); }
+          if !c.strict || masklen_baseline().contains(&mkey) || std::env::var("VERIF_LEARN").is_ok() {
+            v.fail(format!("C03|{}|{}|{}", cause, storage, forms), format!("`{}` on a {}x{} matrix addresses no element but evaluated to {}", expr, c.rows, c.cols, val.show()));
+          } else {
+            v.fail(format!("C03|mask-length-newly-accepted|{}", mkey), format!("`{}` on a {}x{} matrix: a mask of the wrong length is rejected here on the pinned tree but evaluated to {}", expr, c.rows, c.cols, val.show()));
+          }
+          return v;
+        }
         v.fail(format!("C03|{}|{}|{}", cause, storage, forms), format!("`{}` on a {}x{} matrix addresses no element but evaluated to {}", expr, c.rows, c.cols, val.show()));
       }
     }
@@ -287,6 +303,41 @@ pub fn one_by_one_index(ix: &Ix, _len: usize) -> bool {
     Ix::Mask { flags, .. } => flags.len() == 1,
     _ => false,
   }
+}
+
+/// Enumerated stratum: every shape class x every index-form pair holding a mask whose length is off by -2 .. +2 x five flag patterns, for
+/// f64 and u8 elements. The table of combinations the pinned tree accepts was learned from exactly these cases, so an acceptance outside
+/// it is a change of behaviour (a length check lost), not an unlisted instance of the known finding.
+fn masklen_stratum() -> Vec<Case> {
+  let mut out = vec![];
+  let pats = |n: usize| -> Vec<Vec<bool>> { if n == 0 { return vec![]; } let mut v = vec![vec![true; n], vec![false; n], (0..n).map(|i| i == 0).collect(), (0..n).map(|i| i == n - 1).collect(), (0..n).map(|i| i % 2 == 0).collect()]; v.dedup(); v };
+  let bad_masks = |len: usize| -> Vec<Ix> { let mut v = vec![]; for d in [-2i64, -1, 1, 2] { let n = len as i64 + d; if n >= 1 { for f in pats(n as usize) { for var in [false, true] { v.push(Ix::Mask { flags: f.clone(), var }); } } } } v };
+  let good = |len: usize| -> Vec<Ix> { vec![Ix::Scalar(1, None), Ix::Scalar(len as i64, Some(K::U64)), Ix::All, Ix::Vec { vals: vec![len as i64, 1], col: false }, Ix::Range { a: 1, b: len as i64, inclusive: true }, Ix::Mask { flags: vec![true; len], var: false }] };
+  for ek in [EK::N(K::F64), EK::N(K::U8)] {
+    for (rows, cols) in [(1usize, 1usize), (1, 3), (3, 1), (2, 3), (3, 2), (2, 2)] {
+      for i in bad_masks(rows * cols) { out.push(Case { ek, rows, cols, i, j: None, strict: true }); }
+      for i in bad_masks(rows) { for j in good(cols) { out.push(Case { ek, rows, cols, i: i.clone(), j: Some(j), strict: true }); } }
+      for j in bad_masks(cols) { for i in good(rows) { out.push(Case { ek, rows, cols, i, j: Some(j.clone()), strict: true }); } }
+      for i in bad_masks(rows).into_iter().step_by(3) { for j in bad_masks(cols).into_iter().step_by(3) { out.push(Case { ek, rows, cols, i: i.clone(), j: Some(j), strict: true }); } }
+    }
+  }
+  out
+}
+
+/// which subscript carries a mask of the wrong length, and in which direction (i<, i>, j<, j>)
+pub fn mask_rel(c: &Case) -> String {
+  let rel = |tag: &str, ix: &Ix, len: usize| match ix { Ix::Mask { flags, .. } if flags.len() < len => format!("{}<", tag), Ix::Mask { flags, .. } if flags.len() > len => format!("{}>", tag), _ => String::new() };
+  match &c.j { None => rel("i", &c.i, c.rows * c.cols), Some(j) => format!("{}{}", rel("i", &c.i, c.rows), rel("j", j, c.cols)) }
+}
+
+/// (storage | index forms | wrong-length direction) combinations in which the pinned tree accepts a mask of the wrong length
+/// (baselines/C03_masklen_accepted.json, learned with tools/learn.py C03 masklen from thorough runs on the pinned tree)
+fn masklen_baseline() -> &'static std::collections::HashSet<String> {
+  static S: std::sync::OnceLock<std::collections::HashSet<String>> = std::sync::OnceLock::new();
+  S.get_or_init(|| {
+    let p = format!("{}/baselines/C03_masklen_accepted.json", verif_dir());
+    std::fs::read_to_string(p).ok().and_then(|t| serde_json::from_str::<Vec<String>>(&t).ok()).map(|v| v.into_iter().collect()).unwrap_or_default()
+  })
 }
 
 fn oob_cause(c: &Case) -> &'static str {
